@@ -476,6 +476,32 @@ def gRun (step : GState F → Nat → GState F × List F) : GState F → List Na
   | _, [] => []
   | s, id :: rest => let r := step s id; r.2 :: gRun step r.1 rest
 
+/-! ### the interpolated grid values (`RegularGridInterpolator(method='linear', bounds_error=False, fill_value=0)`) -/
+
+section interp
+variable [Add F] [Sub F] [Mul F] [Div F] [LE F] [DecidableLE F] [OfNat F 0] [OfNat F 1]
+
+/-- linear interpolation of the (optional) values `vs` given at the knots `xs`: the first cell
+`[a, b]` containing `x` (a knot belongs to the cell on its left, as `searchsorted(...) - 1`),
+`(1 - d)·va + d·vb` with the normalised distance `d = (x - a)/(b - a)`; `none` outside the knots -/
+def interpO : List F → List (Option F) → F → Option F
+  | a :: b :: xs, va :: vb :: vs, x =>
+    if a ≤ x ∧ x ≤ b then
+      match va, vb with
+      | some p, some q => let d := (x - a) / (b - a); some ((1 - d) * p + d * q)
+      | _, _ => none
+    else interpO (b :: xs) (vb :: vs) x
+  | _, _, _ => none
+
+/-- bilinear interpolation on the grid `(ey, ex)`: interpolate every row along `x`, then the row
+results along `y`; outside the grid the fill value 0 -/
+def interp2 (ey ex : List F) (grid : List (List F)) (y x : F) : F :=
+  match interpO ey (grid.map (fun row => interpO ex (row.map some) x)) y with
+  | some v => v
+  | none => 0
+
+end interp
+
 /-! ### the pd cache with event subsets (`get_pd_with_eventdata(evt_mask=…)`)
 
 The cache array is created filled with NaN (`none`); a masked evaluation fills the requested
